@@ -5,7 +5,7 @@ From Coq Require Import NArith List Bool.
 Import ListNotations.
 From CXV Require Import Gen.TokTy Parse.Balanced Parse.BalancedThms Parse.Declarator Parse.DeclSpec Parse.DeclThms Parse.DeclPins.
 From CXV Require Gen.PinsC01.
-From CXV Require Import Parse.PQName Parse.Using Parse.EnumDecl Parse.ParamsX.
+From CXV Require Import Parse.PQName Parse.Using Parse.EnumDecl Parse.ParamsX Parse.DeclStmt Parse.TemplateStmt.
 From CXV Require Import Parse.EnumList Parse.Specs Parse.VarStmt Parse.FnTail Parse.Init Parse.Members Parse.Template.
 From CXV Require Import Parse.Fold Parse.FoldThms Parse.FoldPlace.
 Open Scope N_scope.
@@ -192,7 +192,70 @@ Theorem parameters_with_defaults_decode_partial : forall ps va rest,
   ev (fun f => params_x f (xps_toks ps va ++ ktok RP :: rest)) (DOk (ps, va, rest)).
 Proof. exact parameters_with_defaults_roundtrip. Qed.
 
-(* the functions the hand-written models above mirror (_parse_type, ParsedTypeModifiers.validate, _parse_enumerator_list, _consume_attribute_specifier_seq, _parse_enum_decl, _parse_fn_end, _parse_template_decl, _parse_template_type_parameter, _parse_using, _parse_using_directive, _parse_using_declaration and _parse_using_typealias) are, token for
+(* How _parse_declarations / _parse_decl put one declaration statement together at
+   namespace scope: `spec* T spec* d1, d2, ..., dn <end>` where every d is a
+   variable declarator (any legal object type) with an optional initialiser, or
+   a function declarator (any legal return type, any parameter list of the
+   declarator grammar) with an optional throw / noexcept specification -- in
+   any mixture and any order (`int a = 1, f(int) noexcept, *b{};`) -- and <end>
+   is ';' or, behind a last function declarator, a body or `= delete ;`.
+   The statement yields exactly one entry per declarator, in source order, each
+   of its own kind (a declarator with a parameter list behind its name is a
+   function, every other one a variable), built on the base type and the flags
+   of the statement; values and exception specifications are the source tokens
+   of their own declarator; the body is skipped exactly and the rest of the
+   input is untouched. *)
+Theorem declaration_statement_decodes_partial : forall pre post b items last le rest,
+  forallb spec_kw pre = true -> forallb spec_kw post = true ->
+  has T_explicit (pre ++ post) = false -> has T_virtual (pre ++ post) = false -> has T_mutable (pre ++ post) = false ->
+  Forall ditem_ok items -> ditem_ok last -> last_ok last le ->
+  let m := apply_kws (pre ++ post) mods0 in
+  let bt := TBase b (m_const m) (m_volatile m) in
+  ev (fun f => decl_stmt (S (length items)) f
+                 (kw_toks pre ++ nm_tok b :: kw_toks post ++ items_toks items last le ++ rest))
+     (DOk (m, map (ditem_entry bt) items ++ [last_entry bt last le], rest)).
+Proof. exact decl_stmt_roundtrip. Qed.
+
+(* ... and the kinds are never confused *)
+Theorem declarator_kinds_follow_the_source : forall b items last le,
+  map is_fn_entry (map (ditem_entry b) items ++ [last_entry b last le]) = map last_is_fn (items ++ [last]).
+Proof. exact kinds_follow_declarators. Qed.
+
+(* What a `template` statement is handed on to (_parse_template): behind ONE header
+   the next token selects the continuation -- `using`, `friend`, `concept`, a
+   requires-clause, or (any other token) a declaration that starts with that
+   token -- and the continuation receives exactly that header (any parameter list
+   of the template-parameter grammar) and the tokens behind the selecting token;
+   behind SEVERAL headers it is always a declaration and it receives all the
+   headers, in source order; without a '<' the statement is an explicit
+   instantiation and nothing has been consumed. *)
+Theorem template_statement_one_header_partial : forall h k R n,
+  Forall tp_ok h -> is T_template k = false ->
+  ev (fun f => template_stmt n f (tlist_toks h ++ k :: R)) (DOk (kind_of_tok k, [h], R)).
+Proof. exact template_stmt_one. Qed.
+
+Theorem template_statement_many_headers_partial : forall h hs k R,
+  Forall tp_ok h -> Forall (Forall tp_ok) hs -> hs <> [] -> is T_template k = false ->
+  ev (fun f => template_stmt (length hs) f (tlist_toks h ++ headers_toks hs ++ k :: R)) (DOk (K_DECL, h :: hs, R)).
+Proof. exact template_stmt_many. Qed.
+
+Theorem explicit_instantiation_consumes_nothing : forall n f toks,
+  match toks with t :: _ => is LT t = false | [] => True end ->
+  template_stmt n f toks = DOk (K_INST, [], toks).
+Proof. exact template_stmt_inst. Qed.
+
+(* A concept definition `NAME = expr` reports its name and exactly the tokens of
+   the constraint expression (any expression of the token-level grammar); the
+   ',' or ';' that ends it is left in the stream; inside a class it is rejected. *)
+Theorem concept_decodes_partial : forall n e s R,
+  Expr tk kty concept_terms e -> (is COMMA s = true \/ is SEMI s = true) ->
+  concept_stmt false (mkTk T_NAME n :: ktok EQ :: e ++ s :: R) = DOk (n, e, s :: R).
+Proof. exact concept_roundtrip. Qed.
+
+Theorem concept_in_class_is_rejected : forall toks x, concept_stmt true toks <> DOk x.
+Proof. exact concept_in_class_rejected. Qed.
+
+(* the functions the hand-written models above mirror (_parse_type, ParsedTypeModifiers.validate, _parse_enumerator_list, _consume_attribute_specifier_seq, _parse_enum_decl, _parse_fn_end, _parse_template_decl, _parse_template_type_parameter, _parse_using, _parse_using_directive, _parse_using_declaration, _parse_using_typealias, _finish_class_or_enum, _parse_declarations, _parse_decl, _parse_function, _parse_field, _parse_template and _parse_concept) are, token for
    token of their syntax trees, the ones the models were written against: the
    translator recomputes the digests from the live code and produces Gen/PinsC01.v
    only when they match *)
@@ -246,4 +309,22 @@ Print Assumptions using_alias_decodes_partial.
 Print Assumptions enum_forward_decodes_partial.
 Print Assumptions enum_definition_decodes_partial.
 Print Assumptions parameters_with_defaults_decode_partial.
+Print Assumptions declaration_statement_decodes_partial.
+Print Assumptions declarator_kinds_follow_the_source.
+Print Assumptions template_statement_one_header_partial.
+Print Assumptions template_statement_many_headers_partial.
+Print Assumptions explicit_instantiation_consumes_nothing.
+Print Assumptions concept_decodes_partial.
+Print Assumptions concept_in_class_is_rejected.
+
+Example c01_mixed_stmt_run :
+  decl_stmt 3 60 (kw_toks [T_static] ++ nm_tok 5 :: kw_toks [T_const] ++
+                  items_toks [IVar [LPtr false false] 1 (InitEq [mkTk 3 9]);
+                              IFn [LRef] [(TBase 6 false false, Some 7)] false 2 None (Some []) false]
+                             (IVar [LArr [mkTk 3 4]] 3 NoInit) LSemi ++ [ktok SEMI])
+  = DOk (mkMods true false false false false true false false false,
+         [EVar 1 (TPtr (TBase 5 true false) false false) (Some [mkTk 3 9]);
+          EFn 2 (TRef (TBase 5 true false)) [(TBase 6 false false, Some 7)] false (mkTail None (Some []) false false);
+          EVar 3 (TArr (TBase 5 true false) [mkTk 3 4]) None], [ktok SEMI]).
+Proof. vm_compute. reflexivity. Qed.
 Print Assumptions modelled_functions_are_the_pinned_ones.
